@@ -1,5 +1,7 @@
 import TextxVerif.Proofs.LinkLocLoop
 import TextxVerif.Proofs.PosDict
+import TextxVerif.Proofs.PosDictObj
+import TextxVerif.Props.C06
 /-!
 # C34 — editor-support positions identify references and objects exactly
 
@@ -135,6 +137,80 @@ theorem C34_dict_innermost (t : ONode) :
     · exact self_mem_nodes _
     · exact absurd hsp (h3 n' h)
 
+/-- The order-free geometry `geo` (non-empty spans, children inside their parent, children pairwise
+disjoint) is weaker than `wf` (which also wants the children in text order). -/
+theorem C34_wf_geo (t : ONode) (h : wf t = true) : geo t = true := wf_geo t h
+
+/-- `geo` against an independent reading: the node covers a non-empty text, every child lies inside
+it and has the geometry itself, no two children overlap. -/
+theorem C34_geo_spec (id s e : Nat) (kids : List ONode) :
+    geo (.mk id s e kids) = true ↔
+      s < e ∧ (∀ k ∈ kids, s ≤ k.s ∧ k.e ≤ e ∧ geo k = true) ∧
+        kids.Pairwise (fun a b => a.e ≤ b.s ∨ b.e ≤ a.s) := by
+  simp only [geo, Bool.and_eq_true, decide_eq_true_eq, geoList_iff]
+
+/-- **Innermost, under the geometry that model construction guarantees.**  `C34_dict_innermost`
+with `wf` weakened to `geo`: every entry `span ↦ v` names an object `n` with that span, no object
+strictly inside `n` has the same span, and every object of the model with that span contains `n`
+(or is `n`).  No assumption on the order of the children. -/
+theorem C34_dict_innermost_geo (t : ONode) (hgeo : geo t = true) :
+    ∀ it ∈ posRuleDict t, ∃ n ∈ nodes t, n.id = it.2 ∧ n.span = it.1 ∧
+      (∀ x ∈ properDesc n, x.span ≠ it.1) ∧
+      (∀ n' ∈ nodes t, n'.span = it.1 → n ∈ nodes n') := by
+  intro it hit
+  obtain ⟨n, hn, h1, h2, h3, _⟩ := C34_dict_innermost t it hit
+  refine ⟨n, hn, h1, h2, h3, ?_⟩
+  intro n' hn' hsp
+  rcases geo_comparable t hgeo n hn n' hn' (by rw [h2, hsp]) with h | h
+  · exact h
+  · rw [nodes_eq] at h
+    rcases List.mem_cons.1 h with rfl | h
+    · exact self_mem_nodes _
+    · exact absurd hsp (h3 n' h)
+
+open Obj in
+/-- **The geometry is a theorem about `process_node`, not an assumption.**  For every well-formed
+parse tree, metamodel and truthiness of objects: the containment tree of the model `Obj.build`
+produces (the model of `process_node` of C05 / C06), read as an object tree (`toONode`: identity,
+`_tx_position(_end)`, contents of the containment attributes in `_tx_attrs` order) — also after
+reference resolution (`RefUpdates`) — has the geometry `geo`; with fuel `|h'|` the tree contains
+every object contained in the model. -/
+theorem C34_geo_of_build (tr : Heap → Nat → Bool) (mm : Nat → List MetaAttr) (root : PT) (r : Nat) (s : St)
+    (hwf : root.WF) (h : build tr mm root = some (.obj r, s)) (h' : Heap) (hu : RefUpdates s.heap h')
+    (fuel : Nat) :
+    geo (toONode h' fuel r) = true ∧
+    (h'.length ≤ r + fuel → ∀ x, Reach h' (fun _ => true) r x → ∃ n ∈ nodes (toONode h' fuel r), n.id = x) := by
+  have e := hu.same
+  have hp := processNode_post tr mm root St.empty (.obj r) s Inv.empty h
+  have T := hp.1.inv.tree
+  have post := build_span_post tr mm root _ s hwf h
+  have hne : ∀ x sp, spanOf s.heap x = some sp → sp.1 < sp.2 := by
+    intro x sp hx
+    unfold spanOf at hx
+    cases hg : s.heap.get x with
+    | none => rw [hg] at hx; cases hx
+    | some o =>
+      rw [hg] at hx
+      simp only [Option.map_some, Option.some.injEq] at hx
+      obtain ⟨_, _, _, _, _, hlt, _, _⟩ := C06_span tr mm root _ s hwf h x o hg
+      rw [← hx]; exact hlt
+  have hr : (s.heap.get r).isSome = true := Heap.isSome_iff.mpr (hp.2 r rfl).lt
+  refine ⟨?_, ?_⟩
+  · rw [toONode_congr e]
+    exact geo_toONode T post.si hne fuel r hr
+  · intro hf x hx
+    exact mem_nodes_toONode (e.tree T) hx fuel hf
+
+open Obj in
+/-- … hence for the position map of a built model the innermost clause holds outright. -/
+theorem C34_dict_innermost_built (tr : Heap → Nat → Bool) (mm : Nat → List MetaAttr) (root : PT) (r : Nat) (s : St)
+    (hwf : root.WF) (h : build tr mm root = some (.obj r, s)) (h' : Heap) (hu : RefUpdates s.heap h')
+    (fuel : Nat) :
+    ∀ it ∈ posRuleDict (toONode h' fuel r), ∃ n ∈ nodes (toONode h' fuel r), n.id = it.2 ∧ n.span = it.1 ∧
+      (∀ x ∈ properDesc n, x.span ≠ it.1) ∧
+      (∀ n' ∈ nodes (toONode h' fuel r), n'.span = it.1 → n ∈ nodes n') :=
+  C34_dict_innermost_geo _ (C34_geo_of_build tr mm root r s hwf h h' hu fuel).1
+
 /-- **Order.** In the position map, an entry listed before another one never has a
 different span that contains the other's span — i.e. every span is listed
 before all different spans that contain it. -/
@@ -160,5 +236,15 @@ example : wf (.mk 0 0 30 [.mk 1 0 10 [.mk 2 0 10 [.mk 3 0 6 []]], .mk 4 12 30 [.
 example : posRuleDict (.mk 0 0 30 [.mk 1 0 10 [.mk 2 0 10 [.mk 3 0 6 []]], .mk 4 12 30 [.mk 5 20 30 []]]) =
     [((20, 30), 5), ((12, 30), 4), ((0, 6), 3), ((0, 10), 2), ((0, 30), 0)] := by
   simp [posRuleDict, collect, collectList, setDefault, has, List.mergeSort, keyLe]
+
+/-! non-vacuity of `geo`: children out of text order (not `wf`), still `geo`; and the object tree of
+the model of `Props/C05.lean` (root 0..9, kids at 2, 4, 6, 8; kid 2 nested in kid 1) -/
+example : wf (.mk 0 0 30 [.mk 4 12 30 [], .mk 1 0 10 [.mk 2 0 10 []]]) = false := by decide
+example : geo (.mk 0 0 30 [.mk 4 12 30 [], .mk 1 0 10 [.mk 2 0 10 []]]) = true := by decide
+example : geo (.mk 0 0 30 [.mk 1 0 10 [], .mk 2 8 12 []]) = false := by decide
+example : geo (toONode Obj.exHeap 5 0) = true := by decide +kernel
+/-- the dict before the final sort: post-order of the object tree -/
+example : collect (toONode Obj.exHeap 5 0) [] = [((4, 5), 2), ((2, 5), 1), ((6, 7), 3), ((8, 9), 4), ((0, 9), 0)] := by
+  decide +kernel
 
 end PosDict
